@@ -59,6 +59,23 @@ def add_extras(rng, inst):
         return [v["name"], rng.randrange(v["size"]), coef()]
 
     ext = {}
+    # delayed feedback  target(t) = sum coef * state(t - tau): the receiving variable is a control,
+    # preferably one discretised on its own coarser stamps (its value at the collocation stamps is
+    # then interpolated), with a nominal != 1; positive coefficients keep the row nominal positive
+    ctrls = [v for v in V if v["kind"] == "control"]
+    if ctrls and rng.random() < 0.6:
+        tgt = rng.choice(ctrls)
+        if n > 2 and rng.random() < 0.75:
+            inner = [t for t in times[1:-1] if rng.random() < 0.5]
+            if len(inner) == n - 2:
+                inner = inner[1:]
+            tgt["times"] = [times[0]] + inner + [times[-1]]
+        if not isinstance(tgt["nom"], list) and tgt["nom"] == 1.0:
+            tgt["nom"] = rng.choice([x for x in NOMS if x != 1.0])
+        src = [v for v in V if v["kind"] in ("state", "alg")]
+        dterms = [[w["name"], 0, rng.choice([1.0, 0.5, 2.0])] for w in rng.sample(src, rng.randint(1, min(2, len(src))))]
+        ext["delay"] = [(dterms, tgt["name"], rng.choice([0.0, 0.25, 0.5, 1.0, 0.3]))]
+        inst["_delay"] = "coarse" if len(tgt["times"]) < n else "same-grid"
     ext["path_objective"] = [pterm() for _ in range(rng.randint(1, 3))]
     ext["objective"] = [([tterm() for _ in range(rng.randint(1, 2))], rng.randrange(n)) for _ in range(rng.randint(0, 2))]
     pcs = []
@@ -349,6 +366,8 @@ def stream_pairs(c, n):
                                 for v, w in zip(inst["vars"], inst2["vars"])))
         c.count(("pair", inst["E"], len(inst["times"]), nomkinds, ra[0], rb[0]))
         c.hit("pair/" + ra[0])
+        if inst.get("_delay"):
+            c.hit("pair/class/delayed-feedback-receiving-control-" + inst["_delay"])
         if "bad-results" in (ra[0], rb[0]):
             c.fail("extract_results() of X = arange(N) is not nominal * index for some variable: results are "
                    "not in physical units", case, [ra[1] if ra[0] != "ok" else "ok", rb[1] if rb[0] != "ok" else "ok"])
@@ -414,6 +433,13 @@ def stream_pairs(c, n):
             if not arr_close([fa], [fb], rtol=1e-9, atol=1e-9):
                 c.fail("objective at the same physical trajectory differs between two nominal choices", case,
                        {"a": fa, "b": fb})
+            # rows may be divided by a positive constant that depends on the nominals (delay rows):
+            # compare them on the normalisation used for the complete comparison
+            sa = np.abs(A["A"]).sum(axis=1)
+            sb = np.abs(B["A"]).sum(axis=1)
+            sa[(sa == 0) | ~np.isfinite(sa)] = 1.0
+            sb[(sb == 0) | ~np.isfinite(sb)] = 1.0
+            ga, gb = ga / sa, gb / sb
             if not arr_close(ga, gb, rtol=1e-8, atol=1e-8):
                 c.fail("rows g at the same physical trajectory differ between two nominal choices", case,
                        {"max_abs_diff": float(np.max(np.abs(ga - gb)))})
